@@ -237,6 +237,8 @@ class FnCtx(object):
     self.loop_markers = []
     self.may_raise = False
     self.localpool = []
+    self.is_helper = False
+    self.counters = []
 
 
 class Gen(object):
@@ -454,9 +456,9 @@ class Gen(object):
         opts.append(('try', 3))
       if p.use_with:
         opts.append(('with', 2))
-      if p.use_nested_def and fc.level < 2:
+      if p.use_nested_def and fc.level < 2 and not (p.pure and depth > 0):
         opts.append(('def', 2))
-    if p.use_lambda and fc.level < 2:
+    if p.use_lambda and fc.level < 2 and not (p.pure and p.lambda_later and depth > 0):
       opts.append(('lambda', 1))
     if p.use_comprehension:
       opts.append(('comp', 1))
@@ -510,6 +512,8 @@ class Gen(object):
     blk.defined.update([v1, v2])
 
   def s_attrassign(self, fc, blk, ind, depth):
+    if self.p.pure and (fc.level > 0 or fc.is_helper):
+      return self.s_assign(fc, blk, ind, depth)   # pure callees: no hidden side effects
     t = self.rng.choice(['o.p', 'o.q', "d['k']", "d['m']"])
     if self.chance(0.3):
       self.emit(ind, '%s += %s' % (t, self.expr(fc, blk, 1)))
@@ -582,6 +586,7 @@ class Gen(object):
 
   def s_while(self, fc, blk, ind, depth):
     w = self.fresh('w')
+    fc.counters.append(w)
     n = self.rng.choice([0, 1, 2, 3, 4])
     self.emit(ind, '%s = 0' % w)
     form = self.rng.random()
@@ -690,6 +695,8 @@ class Gen(object):
 
   def s_return(self, fc, blk, ind, depth):
     r = self.rng.random()
+    if fc.level > 0 or fc.is_helper:
+      r = 1.0   # callees are used inside int expressions: always return an int
     if r < 0.15:
       self.emit(ind, 'return')
     elif r < 0.3:
@@ -811,11 +818,13 @@ class Gen(object):
       inner.nonlocals = set(nl)
       ib.defined |= set(nl)
     inner.local_shadow = set()
+    inner_top = len(self.lines)
     saved = self.p.max_stmts
     inner.nstmts = max(0, saved - 6)
     self.block(inner, ib, ind + 1, depth + 1, 3)
     if not ib.dead:
       self.emit(ind + 1, 'return %s' % self.expr(inner, ib, 1))
+    self._hoist(inner, inner_top, ind + 1)
     fc.captured |= inner.enclosing | inner.nonlocals
     fc.funcs[name] = inner.may_raise
     blk.defined.add(name)
@@ -862,12 +871,14 @@ class Gen(object):
     fc = FnCtx(name, 0)
     fc.params = set(PARAMS)
     fc.localpool = list(self.varpool)
+    fc.is_helper = is_helper
     self.emit(ind, 'def %s(%s):' % (name, SIG))
     blk = Block({'a', 'b', 'c'}, set())
     if self.p.use_global and self.chance(0.3):
       gs = self.rng.sample(['G1', 'G2'], self.rng.randint(1, 2))
       self.emit(ind + 1, 'global %s' % ', '.join(gs))
       fc.globals_declared = set(gs)
+    top_idx = len(self.lines)
     # most variables start defined so that reads are plentiful
     for v in self.varpool:
       if self.chance(0.55 if not self.p.pure else 0.8):
@@ -889,9 +900,20 @@ class Gen(object):
       items = vs[:4] or ['a']
       if self.p.unsafe_reads and self.chance(self.p.unsafe_reads * 3):
         items = items + sorted(blk.maybe - blk.defined)[:1]
-      self.emit(ind + 1, 'return (%s,)' % ', '.join(items))
+      if is_helper:
+        self.emit(ind + 1, 'return %s' % ' + '.join(items))
+      else:
+        self.emit(ind + 1, 'return (%s,)' % ', '.join(items))
+    self._hoist(fc, top_idx, ind + 1)
     self.raising[name] = fc.may_raise
     return fc
+
+  def _hoist(self, fc, idx, ind):
+    """Pure profile: every variable exists before the control-flow statement
+    that assigns it (documented staging limitation), so loop counters are also
+    initialised at the top of their function."""
+    if self.p.pure and fc.counters:
+      self.lines[idx:idx] = ['    ' * ind + '%s = 0' % w for w in fc.counters]
 
   def module(self):
     self.lines = []
